@@ -16,7 +16,10 @@ def gen_reader(items):
         a = pos(body, r'let\s+_[A-Za-z0-9_]+\s*=\s*index\s*\.\s*directory\(\)\s*\.\s*acquire_lock\(\s*&META_LOCK\s*\)\s*\?\s*;')
         l = pos(body, r'\.\s*searchable_segments\(\)')
         o = pos(body, r'SegmentReader::open')
-        v = 1 if (a is not None and l is not None and o is not None and a < l < o) else 0
+        # the guard must live in the function's outermost block (a guard bound in an inner block
+        # is dropped at that block's end, before the segment files are opened)
+        depth0 = a is not None and (body[:a].count('{') - body[:a].count('}')) == 0
+        v = 1 if (a is not None and l is not None and o is not None and a < l < o and depth0) else 0
         return D('READER_LOCK_HELD_OVER_LOAD_AND_OPEN', v,
                  'open_segment_readers: named guard of acquire_lock(&META_LOCK) bound before searchable_segments() and SegmentReader::open')
     items.append(reader_lock)
